@@ -7,6 +7,6 @@ import "time"
 // verifJob and verifRem mark points of interest for the verification
 // harness (see verif_on.go, build tag "verif").  Without the tag they
 // do nothing.
-func verifJob(point string, job *CronJob, now time.Time) {}
+func verifJob(point string, name string, job *CronJob, now time.Time) {}
 
-func verifRem(point string, id string, found bool) {}
+func verifRem(point string, name string, id string, found bool) {}
